@@ -78,7 +78,7 @@ func CFFamilies(tier string) []*FamilySpec {
 		}
 		lists = append(lists, l)
 	}
-	return []*FamilySpec{genFamily("CF", gen.CFAll, lists)}
+	return []*FamilySpec{genFamily("CF", gen.CFAll, lists), HandFamily("pool", "pool.go.txt")}
 }
 
 type famCache struct {
